@@ -16,6 +16,44 @@ CLAIMED = {
             "DESIGN.md 5 C03"),
 }
 
+CLAIMED.update({
+    "C01": ("model_checking",
+            "ParserCore.tla models the parser object; each primitive operation's enabling condition is exactly the condition "
+            "whose violation panics in the code. TLC-enumerated token strings x entry points x limits and seeded fuzz (deep "
+            "nesting to 2000, long flat inputs, mutated corpus) run on the real code in child processes with a 2 MiB stack; "
+            "hook-recorded primitive-operation traces are validated by TLC against ParserCore, all observations by Trace_ParseObs.",
+            "Stack depth and wall-clock termination are observed (small stack, watchdog), not modelled; inputs beyond the bound are sampled.",
+            "TLA+ state machine of the parser object + TLC trace validation of hook-recorded runs + replay of TLC-enumerated inputs",
+            "DESIGN.md 5 C01, Appendix A"),
+    "C02": ("model_checking",
+            "ParserCore's accounting invariant (emitted prefix . pending . held . look-ahead . rest) and the Done condition for "
+            "documents are evaluated by TLC at every step of hook-recorded traces of the real parser; tree text = input and "
+            "char-boundary ranges are observed through the public API on every run.",
+            "rowan's token text storage is trusted; one known call site (ty.rs) is listed in known_findings.json.",
+            "TLC trace validation of recorded parser runs against ParserCore.tla; TLC-enumerated error shapes replayed",
+            "DESIGN.md 5 C02"),
+    "C04": ("model_checking",
+            "LimitTracker model-checked (MC_Limits, all balanced call sequences); nests enumerated by TLC with reference depth and "
+            "item count are parsed around every limit boundary; recorded traces with random limits validated against ParserCore.",
+            "Rendering rule (one space between tokens) is cross-checked against the real lexer's unlimited item count on every case.",
+            "TLA+ LimitTracker model + TLC-generated boundary cases replayed + TLC trace validation",
+            "DESIGN.md 5 C04"),
+    "C05": ("model_checking",
+            "Grammar.tla holds the October 2021 document grammar as data with an EBNF interpreter; TLC decides every token string up "
+            "to the bound (full alphabet and 13 focused contexts) and the real parser must agree on verdict and top-level "
+            "definitions; recorded corpus mutants are decided by TLC.",
+            "Grammar.tla is my transcription of Appendix B; token kinds of recorded documents come from the real lexer (C03).",
+            "TLA+ reference grammar executed by TLC; exhaustive bounded enumeration replayed on the parser; TLC trace validation of recorded verdicts",
+            "DESIGN.md 5 C05"),
+    "C07": ("model_checking",
+            "Grammar!IsTypeRef / IsFieldSet decide every enumerated token string (all prefix.core.suffix within the bound); "
+            "parse_type, ast::Type::parse, parse_selection_set and FieldSet::parse must report no error only for members; "
+            "ParserCore's Done requires, with no error, that the look-ahead is Eof (trace validation).",
+            "Bounded enumeration; beyond the bound sampled traces.",
+            "TLA+ reference grammar + TLC enumeration replayed on the standalone entry points + TLC trace validation",
+            "DESIGN.md 5 C07"),
+})
+
 NOT_APPLICABLE = {}
 
 ALL = ["C%02d" % i for i in range(1, 34)]
